@@ -29,6 +29,13 @@ def run (kv : List (String × String)) : IO Res := do
   match Image.checkImage bytes cfg.crash.isSome with
   | some why => return .mismatch why tags
   | none => tags := "image.exact" :: tags
+  -- the image as the destination holds it (from the position it had when the request began) is as sound as the one
+  -- the request returns: a reader of the file sees that one
+  if let (some destB, some start) := (← readSidecar kv "dest", getNat kv "start") then
+    let fileImg := imgOf (destB.extract start destB.size)
+    match wfImage fileImg with
+    | some why => return .propfail s!"the image in the destination (from position {start}): {why}" tags
+    | none => tags := "dest.sound" :: tags
   -- header facts the statement names explicitly
   let some h := decodeHeader img | return .propfail "header" tags
   let some dir := decodeDirectory img h | return .propfail "directory" tags
